@@ -247,7 +247,7 @@ TRUSTED_BASE = [
     "Kani 0.68 + CBMC 6.11 + CaDiCaL (soundness; bit-precise IEEE-754 binary32 model)",
     "tools/extract.py, tools/mirror.py (mechanical extraction; self-checked by anchors, loop counts and canaries)",
     "std iterator adapters visit elements in order (units that are closure bodies do not cover the adapter chain; whole-function units replace each adapter "
-    "form by an index loop with that order: rewrites R12, R15, R17, R20-R55, every application logged under extraction_drops)",
+    "form by an index loop with that order: rewrites R12, R15, R17, R20-R60, every application logged under extraction_drops)",
     "rayon's par_chunks / into_par_iter().map().collect() / flat_map().collect() keep input order like their std counterparts (C05's subject; assumed by R25, R32, R34)",
     "abstract operations in the network-level units (tensor algebra, per-layer forward/backward functions, optimizer step, objective): uninterpreted; their meaning is decided by the units of C01/C02/C03/C06/C07/C14/C15",
     "`//@assume-region` contracts (listed in extraction_drops as ASSUMED) and `assume_specification`s for std functions vstd does not specify (<[T]>::swap, f32::is_nan, libm)",
